@@ -223,7 +223,7 @@ def reversed_in_atom(v) -> bool:
         if not text:
             return False
         ren = altsem.rename_reversed_in([text], env)
-        if ren is None:
+        if ren is None or not altsem.reversed_in_has_partner([text]):
             return False
         (t2,), env2 = ren
         _clear()
@@ -247,7 +247,7 @@ def reversed_in_atom(v) -> bool:
     except ValueError:
         return False
     ren = altsem.rename_reversed_in(leaves, env)
-    if ren is None:
+    if ren is None or not altsem.reversed_in_has_partner(leaves):
         return False
     texts2, env2 = ren
     mapping = dict(zip(leaves, texts2))
@@ -267,6 +267,9 @@ def reversed_in_atom(v) -> bool:
         return ((a & b), (va and vb)) if t[0] == "and" else ((a | b), (va or vb))
 
     R, exp = build(tree)
+    if v["property"] == "C07":
+        back = parse_marker(str(R))
+        return bool(back.evaluate(dict(env2))) == bool(R.evaluate(dict(env2)))
     return bool(R.evaluate(dict(env2))) == exp
 
 
@@ -318,3 +321,45 @@ def presentation_only(v) -> bool:
     that evaluates differently, or is != , is a violation."""
     live = v.get("_live") or {}
     return live.get("semantic") is False and live.get("same_type") is True and live.get("lib_equal") is True
+
+
+@predicate
+def one_child_compound(v) -> bool:
+    """F16: union_simplify / intersect_simplify return `AnyMarker & MultiMarker(one)` /
+    `EmptyMarker | MarkerUnion(one)` without normalising, so a conjunction/disjunction with exactly
+    one child escapes.  Explained iff the ONLY defect of the shape is compounds with exactly one
+    child, i.e. unwrapping every such node yields a normal form."""
+    from dep_logic.markers import MarkerUnion, MultiMarker
+
+    from .markermon import nf_defect
+
+    live = v.get("_live") or {}
+    m = live.get("result")
+    if m is None:
+        return False
+    diag = live.get("diag") or {}
+    if not (diag.get("union_simplify") or diag.get("intersect_simplify")):
+        return False  # the un-normalised shape did not come out of the two simplify helpers
+
+    found = [0]
+
+    def unwrap(x):
+        if isinstance(x, (MultiMarker, MarkerUnion)):
+            kids = [unwrap(c) for c in x.markers]
+            if len(kids) == 1:
+                found[0] += 1
+                return kids[0]
+            # rebuild without the flattening constructor touching anything else
+            y = object.__new__(type(x))
+            flat = []
+            for k in kids:
+                if type(k) is type(x):
+                    flat.extend(k.markers)  # a one-child wrapper may have hidden a same-kind child
+                else:
+                    flat.append(k)
+            object.__setattr__(y, "markers", tuple(flat))
+            return y
+        return x
+
+    u = unwrap(m)
+    return found[0] > 0 and nf_defect(u) is None
